@@ -732,76 +732,6 @@ theorem foldEol_head_bom {a : List Nat} (h : (foldEol a).head? = some 0xFEFF) : 
   rw [foldEol.eq_def] at h
   split at h <;> simp_all
 
-theorem layoutStep_run {cfg : Cfg} (hup : UpOk cfg.up) (hf : cfg.fullLexer = false) (heol : EolInv cfg)
-    {a b : List Nat} (h : LayoutStep cfg a b) (ts : List Tok) (e : EndK) :
-    LexRun cfg a ts e ↔ LexRun cfg b ts e := by
-  cases h with
-  | eol hab =>
-    by_cases hb : a.head? = some 0xFEFF
-    · obtain ⟨ra, rfl⟩ : ∃ r, a = 0xFEFF :: r := by
-        cases a with
-        | nil => simp at hb
-        | cons c r => exact ⟨r, by simp at hb; rw [hb]⟩
-      rw [foldEol_bom] at hab
-      obtain ⟨rb, rfl⟩ := foldEol_head_bom (a := b) (by rw [← hab]; rfl)
-      rw [foldEol_bom] at hab
-      have hab' : foldEol ra = foldEol rb := by simpa using hab
-      show RunsTo cfg .init ra ts e ↔ RunsTo cfg .init rb ts e
-      rw [heol _ ra, heol _ rb, hab']
-    · have hb' : b.head? ≠ some 0xFEFF := by
-        intro hbb
-        obtain ⟨rb, rfl⟩ : ∃ r, b = 0xFEFF :: r := by
-          cases b with
-          | nil => simp at hbb
-          | cons c r => exact ⟨r, by simp at hbb; rw [hbb]⟩
-        rw [foldEol_bom] at hab
-        obtain ⟨ra, rfl⟩ := foldEol_head_bom (a := a) (by rw [hab]; rfl)
-        simp at hb
-      rw [LexRun_noBom hb, LexRun_noBom hb', heol _ a, heol _ b, hab]
-  | bom hne =>
-    rw [LexRun_noBom hne]
-    rfl
-  | blankLine ha hb hbol hw hc he hn =>
-    rw [LexRun_noBom ha.1, LexRun_noBom hb.1]
-    rename_i pre post w c e' st ts'
-    have key := rule_linePrefix hf hbol (w ++ c ++ e') post (eatIndent_blankLine hw hc he hn)
-    have hb2 : Runs cfg .init (pre ++ ((w ++ c ++ e') ++ post)) ts' pre.length st := by
-      simpa [List.append_assoc] using hb.2
-    have := splice ha.2 hb2 key ts e
-    simpa [List.append_assoc] using this
-  | blankTail ha hb hbol hw hc =>
-    rw [LexRun_noBom ha.1, LexRun_noBom hb.1]
-    rename_i w c st ts'
-    have key := rule_linePrefix hf hbol (w ++ c) [] (eatIndent_blankTail hw hc)
-    have ha2 : Runs cfg .init (a ++ []) ts' a.length st := by simpa using ha.2
-    have hb2 : Runs cfg .init (a ++ ((w ++ c) ++ [])) ts' a.length st := by simpa using hb.2
-    have := splice ha2 hb2 key ts e
-    simpa using this
-  | formFeed ha hb hbol hw =>
-    rw [LexRun_noBom ha.1, LexRun_noBom hb.1]
-    rename_i pre post w st ts'
-    have key := rule_linePrefix hf hbol (w ++ [12]) post (eatIndent_formFeed hw)
-    have hb2 : Runs cfg .init (pre ++ ((w ++ [12]) ++ post)) ts' pre.length st := by
-      simpa [List.append_assoc] using hb.2
-    have := splice ha.2 hb2 key ts e
-    simpa [List.append_assoc] using this
-  | blanks ha hb hbol hw =>
-    rw [LexRun_noBom ha.1, LexRun_noBom hb.1]
-    exact splice ha.2 hb.2 (rule_blanks hup hbol hw _) ts e
-  | commentAfter ha hb hbol hc hp =>
-    rw [LexRun_noBom ha.1, LexRun_noBom hb.1]
-    exact splice ha.2 hb.2 (rule_commentAfter hup hf hbol hc hp) ts e
-  | backslashJoin ha hb hbol he hn hp =>
-    rw [LexRun_noBom ha.1, LexRun_noBom hb.1]
-    rename_i pre post e' st ts'
-    have hb2 : Runs cfg .init (pre ++ ((92 :: e') ++ post)) ts' pre.length st := by simpa using hb.2
-    have := splice ha.2 hb2 (fun t k => by simpa using rule_backslashJoin hup hbol he hn hp t k) ts e
-    simpa using this
-  | bracketBreak ha hb hbol hnest he hn =>
-    rw [LexRun_noBom ha.1, LexRun_noBom hb.1]
-    exact splice ha.2 hb.2 (rule_bracketBreak hup hf hbol hnest he hn) ts e
-
-
 theorem LexRun.det {cfg : Cfg} {src ts e ts' e'} (h : LexRun cfg src ts e) (h' : LexRun cfg src ts' e') :
     ts = ts' ∧ e = e' := by
   by_cases hb : src.head? = some 0xFEFF
